@@ -13,6 +13,7 @@ import (
 	"github.com/ajitpratap0/GoSQLX/pkg/sql/parser"
 
 	clicmd "github.com/ajitpratap0/GoSQLX/cmd/gosqlx/cmd"
+	_ "verif/internal/astnames"
 	"verif/internal/project"
 )
 
